@@ -410,8 +410,17 @@ def distance(fn, ref, ref_locals):
         _MASK = re.compile(r'(#|@|<|lv|after|tv|item|exc|tryjoin)\d+(\.\d+)?(in|g|h\d+)?')
 
     def changed(a, b):
+        """Lines deleted or inserted (the larger count); a block that only moved counts as two lines, not twice its size."""
+        from collections import Counter
         sm = difflib.SequenceMatcher(None, a, b, autojunk=False)
-        return sum(max(i2 - i1, j2 - j1) for tag, i1, i2, j1, j2 in sm.get_opcodes() if tag != 'equal')
+        dele, ins = Counter(), Counter()
+        for tag, i1, i2, j1, j2 in sm.get_opcodes():
+            if tag != 'equal':
+                dele.update(a[i1:i2])
+                ins.update(b[j1:j2])
+        moved = dele & ins
+        nm = sum(moved.values())
+        return max(sum(dele.values()) - nm, sum(ins.values()) - nm) + min(nm, 2)
     d1 = None
     size = 0
     try:
